@@ -94,6 +94,10 @@ CURATED = [
      "        Wait: 0.4s", "        End block", "    Block: B2", "        Wait: 0.4s", "        End block", "    End block", "Mark: done", ""],
     ["Base: s", "Macro: M", "    Mark: A", "    Wait: 0.3s", "    Mark: B", "Watch: In > 2 L/h", "    Call macro: M", "Call macro: M",
      "Mark: X", "Call macro: M", "Mark: Y", ""],
+    ["Base: s", "Block: B", "    Watch: In > 2 L/h", "        End block", "    Alarm: In > 2 L/h", "        Mark: X", "    Wait: 5s",
+     "Mark: after", "Wait: 1s", ""],
+    ["Base: s", "Block: B", "    Alarm: In > 2 L/h", "        Mark: X", "        Wait: 0.2s", "    Watch: In > 2 L/h", "        Wait: 0.2s",
+     "        End block", "    Wait: 5s", "Mark: after", "Wait: 1s", ""],
     ["Base: s", "Pause: 0.3s", "Mark: p", "Hold: 0.2s", "Mark: h", "Block: B", "    0.2 Mark: inb", "    End block", ""],
 ]
 
